@@ -311,13 +311,15 @@ class Hedger(Module):
             # If all features are state-independent, compute the output at all
             # time steps at once, which would be faster.
             input = inputs.get(None)  # (N, T, F)
-            output = self(input)  # (N, T, H)
             # This maintains consistency with the previous implementations.
             # In previous implementation for loop is computed for 0...T-2 and
             # the last time step is not included.
-            # (Out of place: an in-place write would invalidate the output saved
-            # for backward by an output activation such as ReLU, Tanh or Sigmoid.)
-            output = torch.cat((output[..., :-1, :], output[..., [-2], :]), dim=-2)
+            # The model is not evaluated at the last time step at all: its output
+            # there would be discarded, but at maturity Black-Scholes type models
+            # have infinite local derivatives and 0 * inf = nan would poison every
+            # gradient taken through the hedge.
+            output = self(input[..., :-1, :])  # (N, T-1, H)
+            output = torch.cat((output, output[..., [-1], :]), dim=-2)  # (N, T, H)
 
         output = output.transpose(-1, -2)  # (N, H, T)
 
